@@ -112,16 +112,39 @@ def resumed(c):
             c["resume_err"] == "ok" and c["start_err"] == "ok")
 
 
+NOT_RETURNED = "resumed handshake did not return"
+V13 = 0xfefc
+
+
+def start_obs(c):
+    """what HandshakeContext of the resumed Conn did: 0 = nil at once, 1 = an error at once and nothing
+    written (a refusal), 2 = it wrote records or kept waiting (a new handshake)"""
+    if c["start_err"] == "ok":
+        return 0
+    if c["start_err"] != NOT_RETURNED and not c.get("start_wire"):
+        return 1
+    return 2
+
+
+def options_exclude_dtls12(c):
+    """resume options whose version range is DTLS 1.3 only: refusing them (at Resume or at the first
+    Handshake/Read/Write, before anything is written) is a legitimate answer"""
+    return c.get("cfg_min") == V13 and start_obs(c) == 1
+
+
 def monitor_main(c):
     """the property's statements on one implementation run; returns list of (monitor, text)"""
     out = []
     if (c["export_ok"] and c["marshal_err"] == "ok" and c["decode_err"] == "ok" and c["resume_err"] == "ok"
-            and c["start_err"] != "ok" and c["variant"].get("vers")):
+            and options_exclude_dtls12(c)):
+        return out
+    if (c["export_ok"] and c["marshal_err"] == "ok" and c["decode_err"] == "ok" and c["resume_err"] == "ok"
+            and start_obs(c) == 2):
         w = (c.get("start_wire") or [None])[0]
         out.append(("F67", "a connection resumed from a DTLS 1.2 state with options that allow DTLS 1.3 (version range "
                     "%#x..%#x) does not start in the finished state: HandshakeContext: %s; %s" % (
                         c["cfg_min"], c["cfg_max"], c["start_err"],
-                        "it wrote nothing (a resumed server waits for a ClientHello)" if not w else
+                        "it wrote nothing and keeps waiting (a resumed server waits for a ClientHello)" if not w else
                         "first record it wrote: content type %d, epoch %d, seq %d (22/0 = plaintext handshake)"
                         % (w["ct"], w["e"], w["s"]))))
         return out
@@ -194,7 +217,8 @@ def run(chk):
                 "ConnectionState/MarshalBinary/UnmarshalBinary, close the original endpoint silently, "
                 "resumeWithConfig on a fresh endpoint with the same address, write k and m records")
     reported = set()
-    for c in main:
+    for c in sorted(main, key=lambda c: (0 if c["variant"].get("vers") == 1 else 1,
+                                         0 if (c.get("srtp_before") or {}).get("mki_ok") else 1)):
         for mon, text in monitor_main(c):
             if mon in reported:
                 continue
@@ -412,7 +436,7 @@ def run(chk):
             c_istate(c["before"]), c_pstate(c["exported"]), c_pstate(c["decoded"]), c_istate(c["after"]),
             c_istate(c["peer_state"]), c_pairs(c["pre_self"]), c_pairs(c["post_self"]),
             c_optbool(c["post_sent_self"], c["post_got_peer"]), c_optbool(c["post_sent_peer"], c["post_got_self"]),
-            c["cfg_min"], c["cfg_max"], cbool(c["start_err"] == "ok"), cbool(c["early_state_ok"]))
+            c["cfg_min"], c["cfg_max"], start_obs(c), cbool(c["early_state_ok"]))
             for c in ms]
         bad, err = vlib.coq_mismatches("c19m", IMPORTS, "main_case", "main_ok", mterms, shard=40)
         if bad is None:
@@ -437,7 +461,8 @@ def run(chk):
         chk.leg_info("main", suites=variants,
                      features={f: sum(1 for c in main if c["variant"][f]) for f in ("cid", "srtp", "mki", "alpn", "mutual", "sess", "vers")},
                      options_allow_dtls13={"dual-stack (negotiated with these options)": sum(1 for c in main if c["variant"]["vers"] == 1),
-                                           "1.3 only (resume options)": sum(1 for c in main if c["variant"]["vers"] == 2)},
+                                           "1.3 only (resume options)": sum(1 for c in main if c["variant"]["vers"] == 2),
+                                           "refused at the first Handshake (1.3 only)": sum(1 for c in main if options_exclude_dtls12(c))},
                      sides={s: sum(1 for c in main if c["side"] == s) for s in ("client", "server")},
                      exhaustive="every (i,j) in 0..3 x 0..3 on both sides for %d variants" % (34 if chk.tier == "thorough" else 3),
                      abbreviated_handshakes=sum(1 for c in main if c["variant"]["sess"] == 2))
